@@ -156,6 +156,11 @@ func Main(args []string) error {
 		a, rt, cs := j.a, j.rt, j.cs
 		rng := rand.New(rand.NewSource(j.sd))
 		segMS := rt.Dur[0] * 1000 / rt.TS
+		if cs.atoKind == 4 && cs.mode != "number" {
+			// an infinite offset cannot be combined with a SegmentTimeline: no MPD exists for that configuration (refused as a
+			// bad request since 63cb812, MPD generation error before), so it is not a supported URL configuration
+			cs.atoKind = 3
+		}
 		var ato int64
 		switch cs.atoKind {
 		case 1:
